@@ -1,89 +1,169 @@
 (* C11 - Test results are reused only when the test's runtime inputs are unchanged.
    This file holds only the statement, the property theorems and their non-vacuity examples. *)
-From PlzV Require Import Base.Harness Gen.C11RuntimeHash Model.C11 Proof.C11.
+From Coq Require Import Permutation.
+From PlzV Require Import Base.Harness Gen.C11RuntimeHash Model.C11 Proof.C11 Proof.C11_Cmd.
 
-(* For every cache setting, every history h of tree states (with or without deleting plz-out before an
-   invocation) and every position n of it, where x is the n-th step and `reports` lists what the successive
-   `plz test` invocations report for the target:
+(* For every cache setting, every history h of invocations `plz test [-c config] L [-- args]` on successive
+   tree states (with or without deleting plz-out before an invocation) and every position n of it, where x is
+   the n-th step and `reports` lists what the successive invocations report for the target:
    1. a cached result is reported only if an earlier invocation of the history actually RAN the test, that
-      run PASSED, and it had the current runtime inputs: the same test command and the same test directory
-      (test binary, data files, runtime files - destinations, kinds and contents);
-   2. the reported pass/fail outcome equals the outcome of running the test on the current tree, i.e. of a
-      fresh `plz test` (so in particular a failing result is never reused). *)
+      run PASSED, it was given NO test arguments, and it had the current runtime inputs: the same EFFECTIVE test
+      command (the one of the build config active in that invocation) and the same test directory (test
+      binary, data files, runtime files - destinations, kinds and contents);
+   2. the reported pass/fail outcome equals the outcome of running the test on the current tree with the
+      current arguments, i.e. of a fresh run of the same invocation (so a failing result is never reused). *)
 Definition C11_statement : Prop :=
   forall (cache_on : bool) (h : list step) (n : nat) (x : step),
     nth_error h n = Some x ->
     (nth_error (reports cache_on h) n = Some CachedPass ->
        exists i y, i < n /\ nth_error h i = Some y /\ nth_error (reports cache_on h) i = Some RanPass
-                   /\ same_inputs (s_def y) (s_def x))
-    /\ (exists r, nth_error (reports cache_on h) n = Some r /\ passed r = outcome (s_def x)).
+                   /\ same_inputs (s_def y) (s_def x) /\ s_args y = [])
+    /\ (exists r, nth_error (reports cache_on h) n = Some r /\ passed r = step_outcome x).
 
 (* The code violates it: RuntimeHash digests the CONTENT of every runtime file but writes neither its name
    nor its destination (Gen.C11RuntimeHash.loop_writes = [WPathHash], read off the source), so renaming the
-   output of a data dependency leaves the key unchanged.  Witness: Proof.C11.w_rename. *)
+   output of a data dependency leaves the key unchanged.  Witness: Proof.C11.w_rename.  (A second, independent
+   witness: needToRun ignores the test arguments - Proof.C11.w_args, C11_witness_args below.) *)
 Theorem C11_refuted : ~ C11_statement.
 Proof. exact refuted_by_rename. Qed.
 Print Assumptions C11_refuted.
 
 (* The strongest statement the code allows: the full property on every history in which the executable
-   classifier finds no pair of tree states with equal runtime key and different runtime inputs. *)
+   classifier finds no pair of steps with equal runtime key and different runtime inputs, and no step whose
+   test arguments change its outcome while an argument-less step has the same key. *)
 Theorem C11_partial :
   forall (cache_on : bool) (h : list step), defect_class h = None ->
   forall (n : nat) (x : step),
     nth_error h n = Some x ->
     (nth_error (reports cache_on h) n = Some CachedPass ->
        exists i y, i < n /\ nth_error h i = Some y /\ nth_error (reports cache_on h) i = Some RanPass
-                   /\ same_inputs (s_def y) (s_def x))
-    /\ (exists r, nth_error (reports cache_on h) n = Some r /\ passed r = outcome (s_def x)).
+                   /\ same_inputs (s_def y) (s_def x) /\ s_args y = [])
+    /\ (exists r, nth_error (reports cache_on h) n = Some r /\ passed r = step_outcome x).
 Proof. exact partial_by_position. Qed.
 Print Assumptions C11_partial.
 
-(* Unconditionally, for ALL histories: results of failing runs are never stored or reused.  A cached result
-   always comes from an earlier invocation that ran the test, passed, and had an equal runtime KEY; a
-   reported failure (pass) is the failure (pass) of a run on the current tree; and whatever the results file
-   or the cache hold after any history was put there by a run that passed. *)
+(* Unconditionally, for ALL histories: results of failing runs and of runs with test arguments are never
+   stored or reused.  A cached result always comes from an earlier invocation that ran the test, passed, was
+   given no test arguments and had an equal runtime KEY; a reported failure (pass) is the failure (pass) of
+   a run of this invocation on the current tree; and whatever the results file or the cache hold after any
+   history was put there by an argument-less run that passed. *)
 Theorem C11_no_failure_cached :
   (forall (cache_on : bool) (h : list step) (n : nat) (x : step),
      nth_error h n = Some x ->
      (nth_error (reports cache_on h) n = Some CachedPass ->
         exists i y, i < n /\ nth_error h i = Some y /\ nth_error (reports cache_on h) i = Some RanPass
-                    /\ outcome (s_def y) = true /\ runtime_key (s_def y) = runtime_key (s_def x))
-     /\ (nth_error (reports cache_on h) n = Some RanFail -> outcome (s_def x) = false)
-     /\ (nth_error (reports cache_on h) n = Some RanPass -> outcome (s_def x) = true))
+                    /\ outcome (s_def y) = true /\ runtime_key (s_def y) = runtime_key (s_def x) /\ s_args y = [])
+     /\ (nth_error (reports cache_on h) n = Some RanFail -> step_outcome x = false)
+     /\ (nth_error (reports cache_on h) n = Some RanPass -> step_outcome x = true))
   /\ (forall (cache_on : bool) (h : list step) (k : key),
         st_local (state_after cache_on h) = Some k \/ In k (st_cache (state_after cache_on h)) ->
         exists i y, nth_error h i = Some y /\ nth_error (reports cache_on h) i = Some RanPass
-                    /\ outcome (s_def y) = true /\ runtime_key (s_def y) = k).
+                    /\ outcome (s_def y) = true /\ runtime_key (s_def y) = k /\ s_args y = []).
 Proof. exact (conj no_failure_cached_by_position stored_only_passes). Qed.
 Print Assumptions C11_no_failure_cached.
 
-(* The two known defect classes, as the classifier names them, each with a stale cached pass. *)
+(* For ALL histories h and every further step x that is given test arguments: that step stores nothing - the
+   cache holds no key after it that it did not hold before, and a results file exists after it only if the
+   step itself reused it.  (With C11_no_failure_cached: a cached pass is only ever reused from an
+   argument-less passing run.)  Depends on the order of the guards of cacheOutputFiles as read off the source
+   (Gen.store_steps). *)
+Theorem C11_args_never_stored :
+  forall (cache_on : bool) (h : list step) (x : step),
+    s_args x <> [] ->
+    (forall k, In k (st_cache (state_after cache_on (h ++ [x]))) -> In k (st_cache (state_after cache_on h)))
+    /\ (forall k, st_local (state_after cache_on (h ++ [x])) = Some k ->
+          nth_error (reports cache_on (h ++ [x])) (length h) = Some CachedPass).
+Proof. exact args_run_never_stored. Qed.
+Print Assumptions C11_args_never_stored.
+
+(* test_cmd given per build config.  (1) getCommand does not depend on the order in which Go iterates the
+   dict.  (2) Only the ACTIVE config's command matters: two histories of any length that differ, step by
+   step, only in the commands of configs other than the one active in that step give the same reports and
+   leave the same stored state.  (3) The active one must invalidate: a reused result always comes from an
+   earlier passing, argument-less run whose effective command text equals the current effective command text
+   (the rest of the rule being unchanged).  (2),(3) depend on Gen.get_command_order / Gen.rule_test_writes. *)
+Theorem C11_effective_command :
+  (forall cfg l l', Permutation l l' -> NoDup (map fst l) ->
+     get_command cfg (PerConfig l) = get_command cfg (PerConfig l'))
+  /\ (forall (cache_on : bool) (h h' : list step),
+        Forall2 (fun x x' => x = x' \/ inactive_edit x x') h h' ->
+        reports cache_on h = reports cache_on h' /\ state_after cache_on h = state_after cache_on h')
+  /\ (forall (cache_on : bool) (pre : list step) (x : step),
+        report_at cache_on pre x = CachedPass ->
+        exists pre1 y post1, pre = pre1 ++ y :: post1 /\ report_at cache_on pre1 y = RanPass /\ s_args y = [] /\
+          (ts_rule (s_src y) = ts_rule (s_src x) ->
+           fst (get_command (resolve_config (s_config y)) (ts_cmds (s_src y)))
+           = fst (get_command (resolve_config (s_config x)) (ts_cmds (s_src x))))).
+Proof. exact (conj get_command_perm (conj inactive_config_edits_invisible reuse_has_effective_text)). Qed.
+Print Assumptions C11_effective_command.
+
+(* The three known defect classes, as the classifier names them, each with a stale cached pass. *)
+Example C11_witness_args :
+  forall c, exists pre x, w_args = pre ++ [x] /\ report_at c pre x = CachedPass /\ step_outcome x = false
+                          /\ defect_class w_args = Some ArgsNotInKey.
+Proof. exact w_args_stale. Qed.
+
 Example C11_witness_rename :
-  forall c, exists pre x, w_rename = pre ++ [x] /\ report_at c pre x = CachedPass /\ outcome (s_def x) = false
+  forall c, exists pre x, w_rename = pre ++ [x] /\ report_at c pre x = CachedPass /\ step_outcome x = false
                           /\ defect_class w_rename = Some RuntimeFileNamesNotHashed.
 Proof. exact w_rename_stale. Qed.
 
 Example C11_witness_dir :
-  forall c, exists pre x, w_dir = pre ++ [x] /\ report_at c pre x = CachedPass /\ outcome (s_def x) = false
+  forall c, exists pre x, w_dir = pre ++ [x] /\ report_at c pre x = CachedPass /\ step_outcome x = false
                           /\ defect_class w_dir = Some DirEntryNamesNotHashed.
 Proof. exact w_dir_stale. Qed.
 
 (* Non-vacuity of C11_partial and C11_no_failure_cached: a history with a pass, a data edit that makes the
    test fail, the failing run repeated, the data restored (the cache answers), plz-out deleted - the
    classifier finds no defect and the reports are non-trivial. *)
-Definition nv_def (content : str) : tdef :=
-  {| t_rule := [s "//p:t"; s "s.txt"; s "t.bin"; s "cat"; s "a.txt"; s "grep ok"];
-     t_cmd := TPassIf (s "ok");
-     t_files := [ {| rf_role := ROut; rf_dest := s "t.bin"; rf_node := File (s "bin") |};
-                  {| rf_role := RData; rf_dest := s "p/a.txt"; rf_node := File content |} ];
-     t_bin := s "bin" |}.
+Definition nv_def (content : str) : tsrc :=
+  {| ts_rule := [s "//p:t"; s "s.txt"; s "t.bin"; s "cat"; s "a.txt"];
+     ts_cmds := Single (s "grep ok") (TPassIf (s "ok"));
+     ts_files := [ {| rf_role := ROut; rf_dest := s "t.bin"; rf_node := File (s "bin") |};
+                   {| rf_role := RData; rf_dest := s "p/a.txt"; rf_node := File content |} ];
+     ts_bin := s "bin" |}.
+Definition nv_step (rm : bool) (content : str) : step :=
+  {| s_rm := rm; s_config := []; s_args := []; s_src := nv_def content |}.
 Definition nv_hist : list step :=
-  [ {| s_rm := false; s_def := nv_def (s "ok") |}; {| s_rm := false; s_def := nv_def (s "ok") |};
-    {| s_rm := false; s_def := nv_def (s "no") |}; {| s_rm := false; s_def := nv_def (s "no") |};
-    {| s_rm := false; s_def := nv_def (s "ok") |}; {| s_rm := true; s_def := nv_def (s "ok") |} ].
+  [ nv_step false (s "ok"); nv_step false (s "ok"); nv_step false (s "no"); nv_step false (s "no");
+    nv_step false (s "ok"); nv_step true (s "ok") ].
 
 Example C11_nonvacuous :
   defect_class nv_hist = None
   /\ reports true nv_hist = [RanPass; CachedPass; RanFail; RanFail; CachedPass; CachedPass]
   /\ reports false nv_hist = [RanPass; CachedPass; RanFail; RanFail; RanPass; RanPass].
 Proof. vm_compute. repeat split. Qed.
+
+(* Non-vacuity with test arguments and a per-config test command.  The test passes iff its first argument is
+   "good": `-- good` runs and passes but stores nothing (the next identical invocation runs again), the plain
+   invocation runs and fails; no defect is classified (nothing is reused).  Then a dict: the dbg command is
+   edited while opt is active (still cached), the opt command is edited (runs again, fails), `-c dbg` picks
+   the dbg command. *)
+Definition nv_arg (a : list str) : step :=
+  {| s_rm := false; s_config := []; s_args := a;
+     s_src := {| ts_rule := [s "//p:t"; s "s.txt"; s "t.bin"; s "cat"]; ts_cmds := Single (s "sh -c") (TArgIs (s "good"));
+                 ts_files := [ {| rf_role := ROut; rf_dest := s "t.bin"; rf_node := File (s "bin") |} ]; ts_bin := s "bin" |} |}.
+Definition nv_args_hist : list step := [ nv_arg [s "good"]; nv_arg [s "good"]; nv_arg []; nv_arg [s "bad"] ].
+
+Definition nv_dict (cfg : str) (opt dbg : str) : step :=
+  {| s_rm := false; s_config := cfg; s_args := [];
+     s_src := with_cmds (nv_def (s "ok")) (PerConfig [ (s "opt", (opt, TPassIf opt)); (s "dbg", (dbg, TPassIf dbg)) ]) |}.
+Definition nv_dict_hist : list step :=
+  [ nv_dict [] (s "ok") (s "yes"); nv_dict [] (s "ok") (s "nope"); nv_dict [] (s "no") (s "nope");
+    nv_dict (s "dbg") (s "no") (s "ok"); nv_dict [] (s "ok") (s "zzz") ].
+
+Example C11_nonvacuous_args_and_configs :
+  defect_class nv_args_hist = None
+  /\ reports true nv_args_hist = [RanPass; RanPass; RanFail; RanFail]
+  /\ st_cache (state_after true nv_args_hist) = []
+  /\ defect_class nv_dict_hist = None
+  /\ reports false nv_dict_hist = [RanPass; CachedPass; RanFail; RanPass; CachedPass]
+  /\ inactive_edit (nv_dict [] (s "ok") (s "yes")) (nv_dict [] (s "ok") (s "nope")).
+Proof.
+  split; [vm_compute; reflexivity|]. split; [vm_compute; reflexivity|]. split; [vm_compute; reflexivity|].
+  split; [vm_compute; reflexivity|]. split; [vm_compute; reflexivity|].
+  split; [reflexivity|]. split; [reflexivity|]. split; [reflexivity|].
+  exists (nv_def (s "ok")), [ (s "opt", (s "ok", TPassIf (s "ok"))); (s "dbg", (s "yes", TPassIf (s "yes"))) ],
+         [ (s "opt", (s "ok", TPassIf (s "ok"))); (s "dbg", (s "nope", TPassIf (s "nope"))) ], (s "ok", TPassIf (s "ok")).
+  split; [reflexivity|]. split; [reflexivity|]. split; vm_compute; reflexivity.
+Qed.
